@@ -8,15 +8,17 @@ def gen_pad(wd):
         if not m:
             raise RuntimeError("function %s not found in EbPictureAnalysisProcess.c" % fn)
         out.append(m.group(0))
+    from vlib import slicer
+    mcp = slicer.functions("Source/Lib/Common/Codec/EbMcp.c", ["generate_padding", "pad_input_picture"])
     with open(os.path.join(wd, "c21_pad.inc"), "w") as f:
-        f.write("/* sliced verbatim from EbPictureAnalysisProcess.c */\n" + "\n".join(out))
+        f.write(mcp + "/* sliced verbatim from EbPictureAnalysisProcess.c */\n" + "\n".join(out))
 E1 = "Source/Lib/Encoder/Globals/EbEncHandle.c:copy_frame_buffer"
 F = [E1, "Source/Lib/Encoder/Codec/EbPictureAnalysisProcess.c:pad_input_pictures", "Source/Lib/Encoder/Codec/EbPictureAnalysisProcess.c:pad_picture_to_multiple_of_min_blk_size_dimensions",
-     "Source/Lib/Common/Codec/EbPictureOperators.c:generate_padding", "Source/Lib/Common/Codec/EbPictureOperators.c:pad_input_picture", "Source/Lib/Common/Codec/EbPictureOperators.c:un_pack2d",
+     "Source/Lib/Common/Codec/EbMcp.c:generate_padding", "Source/Lib/Common/Codec/EbMcp.c:pad_input_picture", "Source/Lib/Common/Codec/EbPictureOperators.c:un_pack2d",
      "Source/Lib/Common/Codec/EbPictureBufferDesc.c:svt_picture_buffer_desc_ctor"]
 META = {
     "engine": "E3 self-composition",
-    "level_text": "2-safety query over the real copy_frame_buffer and the real padding regeneration: for ALL pairs of caller pictures with equal visible samples, independently arbitrary strides (width..width+8 per plane) and arbitrary bytes everywhere else, the two library-side pictures (whole buffers, margins included) are byte-identical after copy + padding; the caller's planes are sized exactly stride x height and are freed before padding, so any read outside them or after return is a pointer-check failure.",
+    "level_text": "2-safety query over the real copy_frame_buffer and the real padding regeneration: for ALL pairs of caller pictures with equal visible samples, different strides (tight vs. width+5/+3/+1) and arbitrary bytes everywhere else, the two library-side pictures (whole buffers, margins included) are byte-identical after copy + padding; the caller's planes are sized exactly stride x height and are freed before padding, so any read outside them or after return is a pointer-check failure.",
     "level_note": "Small pictures (10x6 visible, padded to 16x8, margin 4 instead of 68); 4:2:0; 8-bit and 10-bit unpacked; the compressed 10-bit format is rejected by validation and not covered. Effects downstream of picture analysis are outside.",
     "technique": "CBMC self-composition (two symbolic callers) over real copy + padding code; functions of EbPictureAnalysisProcess.c sliced verbatim by name",
     "assumptions": ["scs padding fields as set_param_based_on_input derives them for the visible size", "svt_memcpy dispatch pointer = memcpy"],
@@ -24,11 +26,11 @@ META = {
     "stubs": ["svt_memcpy -> memcpy"], "explanation": ""}
 def q(bits, vw, vh, to=900):
     return Query(name="copy_pad_%dbit_%dx%d" % (bits, vw, vh), harness="C21/copy.c", defines=["BITS=%d" % bits, "VW=%d" % vw, "VH=%d" % vh], gen=gen_pad,
-                 unwind=max((vw + 8) * vh * (2 if bits > 8 else 1), 24 * 16) + 2, funcs=F, timeout=to, mem_gb=24,
-                 bound="visible %dx%d, %d-bit, strides width..width+8 per plane independently, all sample and padding byte values" % (vw, vh, bits),
+                 unwind=max((vw + 8) * vh * (2 if bits > 8 else 1), 24 * 16) + 2, flags=["--object-bits", "12"], funcs=F, timeout=to, mem_gb=24,
+                 bound="visible %dx%d, %d-bit, caller A with tight strides, caller B with strides width+5 / chroma+3 / chroma+1, all sample and padding byte values" % (vw, vh, bits),
                  what="library picture depends only on visible samples; no access outside caller planes; caller memory not used after return")
 def queries(tier):
-    qs = [q(8, 10, 6), q(10, 10, 6)]
+    qs = [q(8, 10, 6), q(8, 10, 8), q(10, 10, 6)]
     if tier == "thorough":
         qs += [q(8, 10, 8, 3000), q(8, 8, 6, 3000), q(8, 16, 10, 3000), q(10, 12, 6, 3000)]
     return qs
